@@ -112,3 +112,7 @@ mod tests {
         }
     }
 }
+
+#[cfg(feature = "pendulum_project_ntpd_rs_verif")]
+#[path = "/verif/hooks/statime-wire/messages_announce.rs"]
+pub mod vh_messages_announce;
